@@ -333,6 +333,12 @@ func (r *Raft) onInstallSnapRequest(req *installSnapReq, c *conn) (rpcResult, er
 				return unexpectedErr, err
 			}
 			discardLog = false
+			if r.commitIndex < meta.index {
+				// our state machine is behind the snapshot, and the entries
+				// it would have to apply are gone: restore it as well
+				r.fsm.ch <- fsmRestoreReq{r.fsmRestoredCh}
+				r.setCommitIndex(meta.index)
+			}
 		}
 	}
 	if discardLog {
